@@ -211,6 +211,20 @@ Theorem C09_remove_absent : forall lg ft (s0 s1 : mstate) hs (p : path),
   run bhandler (ovl_impl (v0, []) [(v1, [])] (CRemoveDir p)) (mstore2 s0 s1 hs lg ft) = (mstore2 s0 s1 hs lg ft, fail ENotFound).
 Proof. exact remove_absent. Qed.
 
+(** append_file on a file that only the lower layer has, at any depth: parent chain and file are copied up, the
+    handle's buffer CONTINUES the lower layer's bytes, the view is unchanged; the lower layer keeps its bytes *)
+Theorem C09_append_any_depth : forall lg ft (s0 s1 : mstate) hs (p : path) f,
+  wf s0 -> p <> [] -> reachable s0 s1 p ->
+  s0 !! p = None -> s0 !! whiteout_path (v0, []) p = None -> s1 !! p = Some f -> f_type f = File ->
+  exists s0',
+    run bhandler (ovl_impl (v0, []) [(v1, [])] (CAppendFile p)) (mstore2 s0 s1 hs lg ft) =
+      (mstore2 s0' (<[p := touched f]> s1)
+          (hs ++ [HClosed; HClosed; HMemWriter 0 p (f_content f) (Z.of_nat (length (f_content f)))]) lg ft,
+       Ok (length hs + 2)%nat) /\
+    wf s0' /\
+    forall q, user_path q -> view s0' (<[p := touched f]> s1) q = view s0 s1 q.
+Proof. exact append_lower_deep. Qed.
+
 Theorem C09_collision_hypothesis_is_needed : ~ no_collision [[97%N] ++ wo_suffix; [120%N]].
 Proof. exact collision_example. Qed.
 
@@ -267,3 +281,4 @@ Print Assumptions C09_remove_file_any_depth.
 Print Assumptions C09_collision_hypothesis_is_needed.
 Print Assumptions C09_remove_dir_any_depth.
 Print Assumptions C09_remove_absent.
+Print Assumptions C09_append_any_depth.
